@@ -177,7 +177,12 @@ public:
           {
             enqueuedSignal.reset();
             if (queue.pop(job))
+            {
+              // the reset above may have wiped the wake-up for a job that is still queued
+              // while the other workers sleep: wake them again
+              enqueuedSignal.set();
               break;
+            }
             enqueuedSignal.wait();
           }
           dequeuedSignal.set();
